@@ -164,8 +164,8 @@ def plan(tier, seed):
     if tier == "thorough":
         for k in range(128):
             jobs.append({"sub": "pdag_exh", "p": 5, "shard": k, "nshards": 128, "seed": seed, "cost": 60})
-    n1 = scaled(480 if tier == "quick" else 15000)
-    n2 = scaled(640 if tier == "quick" else 15000)
+    n1 = scaled(1280 if tier == "quick" else 20000)
+    n2 = scaled(1600 if tier == "quick" else 30000)
     shards = 16 if tier == "quick" else 32
     for k in range(shards):
         jobs.append({"sub": "pdag_hyp", "seed": seed, "shard": k, "n": max(1, n1 // shards), "cost": 8})
